@@ -89,7 +89,7 @@ def main():
         dst = os.path.join(VERIF, 'seeded', name)
         os.makedirs(dst, exist_ok=True)
         for f in ('patch.diff', 'demo.py', 'notes.md'):
-            if os.path.exists(os.path.join(src, f)):
+            if os.path.exists(os.path.join(src, f)) and os.path.abspath(src) != os.path.abspath(dst):
                 shutil.copy(os.path.join(src, f), os.path.join(dst, f))
         notes = os.path.join(src, 'notes.md')
         meta['needs_to_manifest'] = open(notes).read()[:1500] if os.path.exists(notes) else ''
